@@ -73,9 +73,29 @@ def cases(tier, seed, flavour):
             yield {'init': k, 'first': list(e), 'depth': depth - 1, 'pal': pal, 'fmt': fmt}
     for k in range(len(RESOLVE)):
         yield {'part': 'resolve', 'k': k, 'pal': pal, 'fmt': fmt}
+    for c in _cases_opsolve_hist(tier, seed):
+        yield c
 
+
+
+def _run_opsolve_hist(case):
+    """solve / edit / solve histories of one op whose status changes on the way (checks/opsolve_hist.py)"""
+    from mc import cvx
+    from checks import opsolve_hist as H
+    ns, nh, viol, outcomes = H.run(PROPERTY, case['depth'], case['variant'], case['fmt'], case['solver'])
+    return {'n': ns, 'nontrivial': ns - nh, 'viol': viol, 'outcomes': {'opsolve-history:' + k: v for k, v in outcomes.items()},
+            'states': ns, 'transitions': ns, 'traces': nh}
+
+
+def _cases_opsolve_hist(tier, seed):
+    for variant in ((seed % 4, (seed + 1) % 4) if tier == 'quick' else (0, 1, 2, 3)):
+        for fmt in ('dense', 'sparse'):
+            for solver in ('default', 'glpk'):
+                yield {'part': 'opsolve-hist', 'variant': variant, 'fmt': fmt, 'solver': solver, 'depth': 5 if tier == 'quick' else 6}
 
 def crash_key(case):
+    if case.get('part') == 'opsolve-hist':
+        return 'opsolve-hist'
     if case.get('part') == 'resolve':
         return 'resolve:%d' % case['k']
     return 'init%s:%s' % (case.get('init'), '-'.join(case.get('first') or ['none']))
@@ -586,6 +606,9 @@ def run(case):
     from mc import cvx
     from cvxopt import solvers
     solvers.options['show_progress'] = False
+    if case.get('part') == 'opsolve-hist':
+        solvers.options.clear()
+        return _run_opsolve_hist(case)
     if case.get('part') == 'resolve':
         return run_resolve(case)
     solvers.options['abstol'] = 1e-8        # tighter than the defaults (1e-7 / 1e-6) so that values can be compared to 1e-6
